@@ -114,14 +114,18 @@ def normLabel : Option PyVal → Option PyVal
   | some .none => none
   | x => x
 
-/-- `any("\\path" in k for k in spec)`: left to right, a key that does not support `in` raises -/
-def escScan : List (PyVal × PyVal) → Except Exc Bool
-  | [] => .ok false
-  | (k, _) :: rest =>
-      match k with
-      | .str s => if containsSub "\\path" s then .ok true else escScan rest
-      | .tuple xs => if xs.any (PyVal.pyEq (.str "\\path")) then .ok true else escScan rest
-      | _ => .error .typeError
+/-- `{k: v for k, v in pairs}`: a repeated key keeps its first position and takes the last value -/
+def dictOfPairs (pairs : List (PyVal × PyVal)) : List (PyVal × PyVal) :=
+  pairs.foldl (fun acc kv =>
+    if acc.any (fun kv' => PyVal.pyEq kv.1 kv'.1)
+    then acc.map (fun kv' => if PyVal.pyEq kv.1 kv'.1 then (kv'.1, kv.2) else kv')
+    else acc ++ [kv]) []
+
+/-- `any(isinstance(k, str) and ESC_CODE in k for k in spec)` -/
+def escScan (kvs : List (PyVal × PyVal)) : Except Exc Bool :=
+  .ok (kvs.any (fun kv => match kv.1 with
+    | .str s => containsSub "\\path" s
+    | _ => false))
 
 /-- `k.replace("\\path", "path")` -/
 def replaceEsc : List Char → List Char
@@ -274,9 +278,9 @@ def parsePathSpec : Nat → PyVal → Except Exc Sniffed
         let kvs := (key0, val0) :: rest
         let esc ← escScan kvs
         if esc then
-          pure (.val (.dict (kvs.map (fun kv => match kv.1 with
+          pure (.val (.dict (dictOfPairs (kvs.map (fun kv => match kv.1 with
             | .str s => (PyVal.str (unescapeKey s), kv.2)
-            | k => (k, kv.2)))))
+            | k => (k, kv.2))))))
         else
         if !rest.isEmpty then throw .malformedPath
         match key0 with
